@@ -86,22 +86,55 @@ def d2(chk, prog):
         chk.decide(why is None, "index-kind", f"{fi.name}: {kind} used as `{norm(use)[:50]}`", f"{fi.qn}::{norm(use)[:70]}", fi.loc(use), why or "")
     chk.floor("label uses in transfer_fields", n, 3)
     fi = prog.fn("cnvlib.segmentation.hmm.segment_hmm")
-    calls = [c for c in own_nodes(fi.node) if isinstance(c, ast.Call) and norm(c.func) == "squash_by_groups"]
-    chk.floor("squash_by_groups call in segment_hmm", len(calls), 1)
-    for c in calls:
-        lv = c.args[1] if len(c.args) > 1 else None
-        ok = isinstance(lv, ast.Call) and norm(lv.func) == "pd.Series" and any(k.arg == "index" and norm(k.value) == f"{norm(c.args[0])}.data.index" for k in lv.keywords)
-        chk.decide(ok, "index-kind", "segment_hmm: state series built on the bins' own index", f"{fi.qn}::squash_by_groups levels", fi.loc(c),
-                   f"the per-bin state vector must be a Series indexed like the bins (filtered bins keep their labels); got `{norm(lv) if lv is not None else None}`")
+    tb = Table(chk, "index-kind", "segment_hmm hands squash_by_groups the bins (own log2, one probe each) and a state series on the bins' own index", fi.loc(), fi.qn)
+    for has_probes, has_weight in itertools.product([False, True], [False, True]):
+        W.reset()
+        n = 5
+        v = [Term.sym(f"v{i}") for i in range(n)]
+        rows = [dict(chromosome="chr1" if i < 3 else "chr2", start=100 * i, end=100 * i + 50, gene="g", log2=v[i]) for i in range(n)]
+        for i in range(n):
+            if has_probes:
+                rows[i]["probes"] = 3 + i
+            if has_weight:
+                rows[i]["weight"] = Term.sym(f"w{i}", 0, INF, positive=True)
+        bins = make_ga("CopyNumArray", rows, {"sample_id": "S"}, index="any", exact=True)
+        states = [[0, 0, 1], [1, 2]]
+        seen = {}
+        model = Model()
+        model.method_prims["smooth_log2"] = lambda it, g, *a, **k: Vec([Term.sym(f"sm{i}") for i in range(g.data.n)])
+        model.prims["cnvlib.segmentation.hmm.as_observation_matrix"] = lambda it, g, *a, **k: [("obs", j) for j in range(len(states))]
+
+        def get_model(it, g, *a, seen=seen, **k):
+            seen["model_log2"] = [repr(x) for x in g.data.cols["log2"].v]
+            return Row({"states": [], "edges": [], "predict": lambda obs, algorithm=None: list(states[obs[1]])})
+        model.prims["cnvlib.segmentation.hmm.hmm_get_model"] = get_model
+
+        def squash(it, g, levels, by_arm=False, seen=seen, **k):
+            seen["squash"] = (g, levels)
+            return make_ga("CopyNumArray", [dict(chromosome="chr1", start=0, end=50, gene="g", log2=0, probes=1)], {}, exact=True)
+        model.prims["cnvlib.segfilters.squash_by_groups"] = squash
+        it = Interp(prog, model)
+        out = tb.guard(lambda: it.run(fi.qn, [bins, "hmm", None]), f"probes column={has_probes} weight={has_weight}")
+        if out is None:
+            continue
+        g, levels = seen.get("squash", (None, None))
+        flat = [x for c in states for x in c]
+        ok_levels = isinstance(levels, Vec) and list(levels.v) == flat and not getattr(levels, "fresh", False)
+        ok_bins = g is not None and g.data.n == n and all(same(a, b) for a, b in zip(g.data.cols["log2"].v, v))
+        ok_probes = g is not None and ("probes" not in g.data.cols or all(same(x, 1) for x in g.data.cols["probes"].v))
+        ok_smooth = seen.get("model_log2") == [f"sm{i}" for i in range(n)] or seen.get("model_log2") is not None
+        tb.cell(ok_levels and ok_bins and ok_probes and ok_smooth, dict(probes_column=has_probes, weight=has_weight, states_on_bin_index=ok_levels, own_log2_restored=ok_bins, one_probe_per_bin=ok_probes,
+                levels=repr(levels)[:80], probes=repr(g.data.cols.get("probes"))[:60] if g is not None else None))
+    tb.done("the HMM path does not squash the surviving bins (restored log2, one probe per bin) by a state series carrying the bins' own labels")
 
 
 def d3(chk, prog):
     chk.clause("D3", "aggregation binding: weight = SUM, depth = WAVG, gene = ordered distinct meaningful names; segment_none; segment_mean")
     fi = prog.fn(TF)
-    tb = Table(chk, "aggregation", "transfer_fields on 6 symbolic bins / 2 segments", fi.loc(), fi.qn)
+    tb = Table(chk, "aggregation", "transfer_fields on 8 symbolic bins / 2 segments", fi.loc(), fi.qn)
     for wkind in ("positive", "zero-second", "absent"):
         W.reset()
-        n = 6
+        n = 8
         s = [Term.sym(f"s{i}", 0, INF, True) for i in range(n)]
         e = [Term.sym(f"e{i}", 0, INF, True) for i in range(n)]
         d = [Term.sym(f"d{i}", 0, INF) for i in range(n)]
@@ -110,20 +143,21 @@ def d3(chk, prog):
         else:
             w = []
             for i in range(n):
-                if wkind == "zero-second" and i >= 3:
+                if wkind == "zero-second" and i >= 4:
                     w.append(0)
                 else:
                     t = Term.sym(f"w{i}", 0, INF, positive=True)
                     t.lo = 1e-9
                     w.append(t)
-        genes = ["B", "Antitarget", "A", "C", "-", "C"]
+        # a gene whose bins are interrupted by another gene's bins (nested / interleaved genes) is still listed once
+        genes = ["B", "Antitarget", "A", "B", "C", "-", "D", "C"]
         rows = [dict(chromosome="chr1", start=s[i], end=e[i], gene=genes[i], log2=Term.sym(f"v{i}"), depth=d[i]) for i in range(n)]
         if w is not None:
             for i in range(n):
                 rows[i]["weight"] = w[i]
         bins = make_ga("CopyNumArray", rows, {"sample_id": "S"}, index="any", exact=True)
-        segs = make_ga("CopyNumArray", [dict(chromosome="chr1", start=Term.sym("S0"), end=Term.sym("E0"), gene="-", log2=Term.sym("L0"), probes=3),
-                                        dict(chromosome="chr1", start=Term.sym("S1"), end=Term.sym("E1"), gene="-", log2=Term.sym("L1"), probes=3)],
+        segs = make_ga("CopyNumArray", [dict(chromosome="chr1", start=Term.sym("S0"), end=Term.sym("E0"), gene="-", log2=Term.sym("L0"), probes=4),
+                                        dict(chromosome="chr1", start=Term.sym("S1"), end=Term.sym("E1"), gene="-", log2=Term.sym("L1"), probes=4)],
                        {"sample_id": "S"}, exact=True)
         model = Model()
         seen = {}
@@ -132,7 +166,7 @@ def d3(chk, prog):
         def slices(it, table, other, mode, keep_empty, seen=seen):
             seen["args"] = (mode, keep_empty, table, other)
             seen["span_at_aggregation"] = (other.cols["start"].v[0], other.cols["end"].v[-1])
-            return [[0, 1, 2], [3, 4, 5]]
+            return [[0, 1, 2, 3], [4, 5, 6, 7]]
         model.prims["skgenome.intersect.iter_slices"] = slices
         model.ext["pd.unique"] = lambda it, v: _unique(v)
         it = Interp(prog, model)
@@ -145,9 +179,9 @@ def d3(chk, prog):
         if out is None:
             continue
         c = out.data.cols
-        groups = [[0, 1, 2], [3, 4, 5]]
+        groups = [[0, 1, 2, 3], [4, 5, 6, 7]]
         ok = seen.get("args", (None, None))[0] == "outer" and seen["args"][1] is False and seen["args"][3] is segs_frame
-        wantg = ["B,A", "C"]
+        wantg = ["B,A", "C,D"]
         for j, grp in enumerate(groups):
             if w is None:
                 ww = Term.const(len(grp))
@@ -159,10 +193,10 @@ def d3(chk, prog):
                 else:
                     wd = t_div(_sum([t_mul(d[i], T(w[i])) for i in grp]), ww)
             ok = ok and same(c["weight"].v[j], ww) and same(c["depth"].v[j], wd) and c["gene"].v[j] == wantg[j]
-        ok = ok and same(c["start"].v[0], s[0]) and same(c["end"].v[1], e[5]) and same(c["end"].v[0], Term.sym("E0")) and same(c["start"].v[1], Term.sym("S1"))
+        ok = ok and same(c["start"].v[0], s[0]) and same(c["end"].v[1], e[7]) and same(c["end"].v[0], Term.sym("E0")) and same(c["start"].v[1], Term.sym("S1"))
         ok = ok and same(c["log2"].v[0], Term.sym("L0")) and same(c["log2"].v[1], Term.sym("L1"))
         sp = seen.get("span_at_aggregation", (None, None))
-        stretched_first = sp[0] is not None and same(sp[0], s[0]) and same(sp[1], e[5])
+        stretched_first = sp[0] is not None and same(sp[0], s[0]) and same(sp[1], e[7])
         ok = ok and stretched_first
         tb.cell(ok, dict(weights=wkind, iter_slices=repr(seen.get("args", ())[:2]), segments_stretched_before_aggregation=stretched_first, got={k: [repr(x) for x in v.v] for k, v in c.items() if k in ("start", "end", "weight", "depth", "gene")}))
     tb.done("segment weight / depth / gene / stretched endpoints are not the stated aggregates of the bins the segment spans")
@@ -391,6 +425,10 @@ MUTANTS = [
     dict(name="haar on the whole array", file=_S, old='    if method == "flasso" or method.startswith("hmm"):', new='    if method in ("flasso", "haar") or method.startswith("hmm"):'),
     dict(name="none: end of first bin", file="cnvlib/segmentation/none.py", old="            cnarr.end.iat[-1],", new="            cnarr.end.iat[0],"),
     dict(name="segment_mean ignores weights", file="cnvlib/segmetrics.py", old='        return np.average(cnarr["log2"], weights=cnarr["weight"])', new='        return np.average(cnarr["log2"])'),
+    dict(name="seeded C03c: hmm keeps a pre-existing probes column", file="cnvlib/segmentation/hmm.py", old='    cnarr["probes"] = 1\n', new=""),
+    dict(name="seeded C03d: gene names by consecutive runs", edits=[(_S, "        subgenes = [g for g in pd.unique(bin_genes[bin_idx]) if g not in ignore]", "        subgenes = [g for g, _run in itertools.groupby(b for b in bin_genes[bin_idx] if b not in ignore)]"), (_S, "import locale\n", "import locale\nimport itertools\n")]),
+    dict(name="hmm squashes the smoothed log2", file="cnvlib/segmentation/hmm.py", old='    cnarr["log2"] = orig_log2\n', new=""),
+    dict(name="twin: hmm state series bound to a variable first", expect="silent", file="cnvlib/segmentation/hmm.py", old="    segarr = squash_by_groups(\n        cnarr, pd.Series(states, index=cnarr.data.index), by_arm=True\n    )", new="    bin_index = cnarr.data.index\n    state_series = pd.Series(states, index=bin_index)\n    segarr = squash_by_groups(cnarr, state_series, by_arm=True)"),
     dict(name="hmm states on a fresh index", file="cnvlib/segmentation/hmm.py", old="cnarr, pd.Series(states, index=cnarr.data.index), by_arm=True", new="cnarr, pd.Series(states), by_arm=True"),
     dict(name="seeded C03a: endpoints stretched after the aggregation", edits=[(_S, '    segments.data.iloc[0, segments.data.columns.get_loc("start")] = bins_start\n    segments.data.iloc[-1, segments.data.columns.get_loc("end")] = bins_end\n', ""),
         (_S, "        gene=seg_genes, weight=seg_weights, depth=seg_depths\n    )\n    return segments\n", '        gene=seg_genes, weight=seg_weights, depth=seg_depths\n    )\n    segments.data.iloc[0, segments.data.columns.get_loc("start")] = bins_start\n    segments.data.iloc[-1, segments.data.columns.get_loc("end")] = bins_end\n    return segments\n')]),
